@@ -114,7 +114,14 @@ func inertBody(fn *ssa.Function) bool {
 					ok = false
 					break
 				}
-				if _, isB := c.Value.(*ssa.Builtin); isB {
+				if bi, isB := c.Value.(*ssa.Builtin); isB {
+					switch bi.Name() {
+					case "copy", "clear", "close", "delete":
+						// writes through its argument: an effect unless the destination is the function's own storage
+						if !(bi.Name() == "copy" && localSlice(c.Args[0])) {
+							ok = false
+						}
+					}
 					break
 				}
 				f := c.StaticCallee()
@@ -148,6 +155,14 @@ func inertBody(fn *ssa.Function) bool {
 		inertMemo[fn] = 2
 	}
 	return ok
+}
+
+// localSlice: a slice of the function's own local array.
+func localSlice(v ssa.Value) bool {
+	if sl, ok := v.(*ssa.Slice); ok {
+		return localAddr(sl.X) || localSlice(sl.X)
+	}
+	return false
 }
 
 func localAddr(v ssa.Value) bool {
@@ -325,10 +340,101 @@ func readsSocketIn(fn *ssa.Function, seen map[*ssa.Function]bool) bool {
 	return false
 }
 
-// typesHelpers: unexported plain functions of package types are helpers of the exported functions and
+// typesHelpers: unexported functions and methods of package types are helpers of the exported functions and
 // methods that call them; exported functions and methods stay visible as events.
 func typesHelpers(p *Program) func(f *ssa.Function, d int) bool {
 	return inlineHelpers([]*ssa.Package{p.SSAPkg("types")}, func(f *ssa.Function) bool {
-		return f.Object() != nil && (f.Object().Exported() || f.Signature.Recv() != nil)
+		return f.Object() != nil && f.Object().Exported()
 	})
+}
+
+// simplePredicate: a boolean function that only compares its own parameters (and fields of them) with constants
+// and each other: no loops, no memory other than its parameters, no calls except to other simple predicates.
+// `func isReserved(n uint32) bool { return n == 0 || n == 0xffffffff }` is a condition written as a function;
+// walks that keep boolean predicates opaque still see through these.
+var simplePredMemo = map[*ssa.Function]int{}
+
+func simplePredicate(f *ssa.Function) bool {
+	if f == nil || f.Blocks == nil || len(f.FreeVars) != 0 {
+		return false
+	}
+	switch simplePredMemo[f] {
+	case 1:
+		return true
+	case 2, 3:
+		return false
+	}
+	simplePredMemo[f] = 3
+	ok := f.Signature.Results().Len() == 1 && isBoolType(f.Signature.Results().At(0).Type()) && len(f.Blocks) <= 24
+	// acyclic: every edge goes to a block not yet on the DFS stack
+	if ok {
+		state := map[*ssa.BasicBlock]int{}
+		var dfs func(b *ssa.BasicBlock) bool
+		dfs = func(b *ssa.BasicBlock) bool {
+			state[b] = 1
+			for _, s := range b.Succs {
+				if state[s] == 1 {
+					return false
+				}
+				if state[s] == 0 && !dfs(s) {
+					return false
+				}
+			}
+			state[b] = 2
+			return true
+		}
+		ok = dfs(f.Blocks[0])
+	}
+	if ok {
+	scan:
+		for _, b := range f.Blocks {
+			for _, in := range b.Instrs {
+				switch x := in.(type) {
+				case *ssa.BinOp, *ssa.If, *ssa.Jump, *ssa.Return, *ssa.Phi, *ssa.Convert, *ssa.ChangeType, *ssa.DebugRef, *ssa.Field:
+				case *ssa.UnOp:
+					if x.Op.String() == "*" || x.Op.String() == "<-" {
+						ok = false
+						break scan
+					}
+				case *ssa.Call:
+					g := x.Call.StaticCallee()
+					if g == nil || !inModule(g) || !simplePredicate(g) {
+						ok = false
+						break scan
+					}
+				default:
+					ok = false
+					break scan
+				}
+			}
+		}
+	}
+	if ok {
+		simplePredMemo[f] = 1
+	} else {
+		simplePredMemo[f] = 2
+	}
+	return ok
+}
+
+// reachesInstr: fn or an in-package static callee (transitively, closures included) contains an instruction
+// for which pred holds.
+func reachesInstr(fn *ssa.Function, pk *ssa.Package, pred func(ssa.Instruction) bool, seen map[*ssa.Function]bool) bool {
+	if fn == nil || fn.Blocks == nil || seen[fn] {
+		return false
+	}
+	seen[fn] = true
+	for _, b := range fn.Blocks {
+		for _, in := range b.Instrs {
+			if pred(in) {
+				return true
+			}
+		}
+	}
+	for _, f := range staticCallees(fn) {
+		if pkgOf(f) == pk && reachesInstr(f, pk, pred, seen) {
+			return true
+		}
+	}
+	return false
 }
